@@ -495,7 +495,7 @@ class SymFloat:
             return NotImplemented
         if _nonfinite(o):
             return _nonfinite_arith(self, o, opname, rev)
-        if isinstance(o, (SymFloat, SymInt, SymBool, int, float)):
+        if isinstance(o, (SymFloat, SymInt, SymBool, int, float, fractions.Fraction)):
             a, b = self.t, _zr(o)
             t = f(b, a) if rev else f(a, b)
             return SymFloat(t, SymFloat._nanflag(self, o))
@@ -539,7 +539,7 @@ class SymFloat:
             return NotImplemented
         if _nonfinite(o):
             return _nonfinite_cmp(self, o, f, ne)
-        if isinstance(o, (SymFloat, SymInt, SymBool, int, float)):
+        if isinstance(o, (SymFloat, SymInt, SymBool, int, float, fractions.Fraction)):
             c = f(self.t, _zr(o))
             nf = SymFloat._nanflag(self, o)
             if nf is not None:
